@@ -248,6 +248,13 @@ def oracle(case, out):
         fails.append(("c04-last-row", "last row %s is not (0..0 1)" % H[d]))
     if g is None or rank < d - 1:
         return fails                      # all points collinear (or a single point): outside the property
+    # collinearity is a property of the point set, not of the cross covariance (which can cancel to zero for
+    # symmetric pairings): a source or target set whose second singular value vanishes is outside the property
+    for X in (Sp, Tp):
+        sv = np.linalg.svd(X - X.mean(0), compute_uv=False)
+        if len(sv) < 2 or sv[1] <= (1e-3 if ty == "f32" else 1e-6) * max(sv[0], 1e-300):
+            STATS["collinear_skipped"] = STATS.get("collinear_skipped", 0) + 1
+            return fails
     tol, spread, off, kappa = g
     ortho = np.abs(R.T @ R - np.eye(d)).max()
     if ortho > max(BASE[ty], 64 * EPS[ty]):
